@@ -356,12 +356,14 @@ density_sketch<T, K, A> density_sketch<T, K, A>::deserialize(const void* bytes, 
   Levels levels(allocator);
   int64_t num_to_read = num_retained; // num_retained is uint32_t so this allows error checking
   while (num_to_read > 0) {
+    ensure_minimum_memory(end_ptr - ptr, sizeof(uint32_t));
     uint32_t level_size;
     ptr += copy_from_mem(ptr, level_size);
     ensure_minimum_memory(end_ptr - ptr, level_size * pt_size);
     Level lvl(allocator);
     lvl.reserve(level_size);
     for (uint32_t i = 0; i < level_size; ++i) {
+      ensure_minimum_memory(end_ptr - ptr, pt_size); // the products checked above can wrap around
       Vector pt(dim, 0, allocator);
       ptr += copy_from_mem(ptr, pt.data(), pt_size);
       lvl.push_back(pt);
